@@ -354,27 +354,34 @@ def r3_work_queue(chk, repo):
     chk.need(done is not None, "C15.R3: `done, _ = wait(futures, ...)` not found in multi_run")
     dl = [st for st in walk_body(wl) if isinstance(st, ast.For) and norm(st.iter) == done]
     form = linear(ast.BinOp(left=top.args[2], op=ast.Sub(), right=top.args[1]))
-    const = form.pop("1", 0)
-    okn = True
-    why = ""
+    form.pop("1", 0)
+    body_first = cfg.nodes_of(dl[0].body[0]) if dl else []
+    ln = cfg.node_of(dl[0]) if dl else None
+    inside = {id(x) for st_ in dl[0].body for x in ast.walk(st_)} if dl else set()
+    in_loop = lambda n: id(n.stmt if n.kind == "stmt" else n.owner) in inside
+
+    def on_every_round_path(stmts):
+        nodes = [cfg.node_of(x) for x in stmts]
+        return bool(nodes) and bool(dl) and (any(b in nodes for b in body_first) or cfg.every_path(body_first, [ln], lambda n: n in nodes or (n is not ln and not in_loop(n)), "n")[0])
+
+    finished, partial = [], []
     for sym, coef in form.items():
-        if sym == f"len({done})" and coef == 1:
+        if sym == f"len({done})":
+            (finished if coef == 1 else partial).append(sym)
             continue
-        # a counter: must be incremented for every finished future on every path of the collecting loop
-        cnt_incs = [st for st in walk_body(f.node) if isinstance(st, ast.AugAssign) and norm(st.target) == sym]
-        good = False
-        if coef == 1 and cnt_incs and dl:
-            body_first = cfg.nodes_of(dl[0].body[0])
-            ln = cfg.node_of(dl[0])
-            inc_nodes = [cfg.node_of(x) for x in cnt_incs]
-            inside = {id(x) for st_ in dl[0].body for x in ast.walk(st_)}
-            in_loop = lambda n: id(n.stmt if n.kind == "stmt" else n.owner) in inside
-            good = all(isinstance(x.op, ast.Add) and norm(x.value) == "1" for x in cnt_incs) and (any(b in inc_nodes for b in body_first) or cfg.every_path(body_first, [ln], lambda n: n in inc_nodes or (n is not ln and not in_loop(n)), "n")[0])
-        if not good:
-            okn = False
-            why = f"`{sym}` (coefficient {coef}) does not count every finished future"
-    chk.check(okn and bool(form), R, f, stmt_of(top), f"the number of runs submitted after a round is not the number of futures that finished in it ({why or 'no dependence on the finished futures'}): failed runs keep their slots, the pool drains and the remaining runs are silently never loaded",
-              site_text="multi_run: top-up size = futures finished this round", site={"function": f.qualname, "rule": "every finished future frees a slot"})
+        incs_in = [st for st in walk_body(f.node) if isinstance(st, ast.AugAssign) and norm(st.target) == sym and id(st) in inside]
+        if incs_in:
+            full = all(isinstance(x.op, ast.Add) and norm(x.value) == "1" for x in incs_in) and on_every_round_path(incs_in)
+            (finished if full and coef == 1 else partial).append(sym)
+            continue
+        e = ast.parse(sym, mode="eval").body
+        if isinstance(e, ast.Call) and call_name(e) == "len" and e.args:
+            cont = norm(e.args[0])
+            apps = [stmt_of(c) for c in calls_in(f.node) if isinstance(c.func, ast.Attribute) and c.func.attr in ("append", "add", "extend") and norm(c.func.value) == cont and id(stmt_of(c)) in inside]
+            if apps:
+                (finished if coef == 1 and on_every_round_path(apps) else partial).append(sym)
+    chk.check(bool(finished) and not partial, R, f, stmt_of(top), "the number of runs submitted after a round does not follow the number of futures that finished" + (f": {partial} count(s) only some of them" if partial else ": no term counts the finished futures") + " - failed runs keep their slots, the pool drains and the remaining runs are silently never loaded",
+              site_text="multi_run: top-up size follows the futures finished (failed or not)", site={"function": f.qualname, "rule": "every finished future frees a slot"})
     # the top-up is not skipped by the failure handling (it sits in the while body, outside the collecting loop)
     chk.check(loop is not None and wl is not None and loop in wl.body, R, f, stmt_of(top), "the top-up is not executed once per wait round", site_text="multi_run: top-up at the end of every wait round")
 
